@@ -75,7 +75,9 @@ def generate(seed, idx, tier):
     # partition columns are called just that
     shape = gen_shape(rng, max_parts=0 if scheme == 'simple' else 2,
                       col_kinds=ALL_KINDS,
-                      part_kinds=('pstr', 'pint', 'pbool', 'pnum')
+                      # (numeric-looking text would come back as numbers:
+                      # a drill path carries no type either - C08 matter)
+                      part_kinds=('pstr', 'pint', 'pbool')
                       if scheme == 'drill' else PART_KINDS,
                       part_prefix='dir' if scheme == 'drill' else 'p')
     if scheme == 'drill' and not shape['parts']:
@@ -152,9 +154,33 @@ def generate(seed, idx, tier):
         for o in ops:
             if 'frame' in o:
                 o['frame']['index'] = windex
+    if ops[0].get('has_nulls') == 'infer' and rng.random() < 0.5:
+        # missing values arriving only with later batches: the first batch
+        # of float / timestamp columns has none, so the columns are declared
+        # REQUIRED and NaN / NaT travel as values
+        for c in ops[0]['frame']['cols']:
+            if c[1] in ('f64', 'f32', 'dt') and c[2] == 'some':
+                c[2] = 'none'
+    if rng.random() < 0.15:
+        # a later batch carries its timestamps at a coarser resolution than
+        # the file (which is ns): refused today; a tree that accepts it has to
+        # bring the rows back intact like any other append
+        for o in ops[1:]:
+            if 'frame' in o and rng.random() < 0.5:
+                unit = rng.choice(('us', 'ms', 's'))
+                for c in o['frame']['cols']:
+                    if c[1] == 'dt':
+                        c[4] = unit
     local = not with_faults and rng.random() < 0.12
+    drill_names = None
+    if scheme == 'drill':
+        # a drill dataset keeps no field names in its paths: the partition
+        # columns come back as dir0, dir1 whatever they were called when the
+        # dataset was written through write()
+        drill_names = rng.sample(['zone', 'country', 'mm', 'aa'],
+                                 len(shape['parts']))
     return {'prop': PROP, 'seed': seed, 'idx': idx, 'tier': tier,
-            'local': local, 'windex': windex,
+            'local': local, 'windex': windex, 'drill_names': drill_names,
             'knobs': knobs, 'scheme': scheme, 'shape': shape, 'ops': ops,
             'cat_mode': cat_mode, 'handle': handle,
             'dur_seed': rng.randrange(2 ** 31)}
@@ -168,6 +194,58 @@ def footer_start(buf):
         return None
     n = struct.unpack('<I', bytes(buf[-8:-4]))[0]
     return len(buf) - 8 - n
+
+
+FILTER_KINDS = ('i64', 'i32', 'u8', 'u16', 'str', 'obj', 'dt')
+
+
+def filtered_read_misses(fs, path, df, op, parts):
+    """Row 0 and the last row of the batch just written, looked up through
+    `==` filters on up to two of their non-null values.  -> '' or message."""
+    import pandas as pd
+    pf = D.open_pf(path, fs)
+    cols = [c for c in op['frame']['cols'] if c[1] in FILTER_KINDS]
+    for i in sorted({0, len(df) - 1}):
+        if any(pd.isna(df[p].iloc[i]) for p in parts):
+            continue                    # a key-less row is not written
+        uid = int(df['uid'].iloc[i])
+        for c in cols[:2]:
+            v = df[c[0]].iloc[i]
+            if v is None or v is pd.NaT or (not isinstance(v, str)
+                                            and pd.isna(v)):
+                continue
+            if hasattr(v, 'item'):
+                v = v.item() if c[1] != 'dt' else v
+            got = pf.to_pandas(columns=['uid'], filters=[(c[0], '==', v)],
+                               **D.READ_KW)
+            if uid not in set(got['uid'].tolist()):
+                return ('row uid=%d not returned by filters=[(%r, "==", %r)]'
+                        ' (%d rows returned)' % (uid, c[0], v, len(got)))
+    return ''
+
+
+def footer_counts(fs, path, multi, nrows):
+    from sim import minithrift as M
+    files = fs.files
+    if not multi:
+        fm = M.footer(files[path])
+        if fm['problems'] or fm['fmd'] is None:
+            return ['footer: ' + '; '.join(fm['problems'])]
+        total = sum(n or 0 for _, n in M.row_groups(fm['fmd']))
+        out = []
+        if fm['fmd'].get(3) != total:
+            out.append('footer num_rows %r != sum over its row groups %d'
+                       % (fm['fmd'].get(3), total))
+        if total != nrows:
+            out.append('row groups hold %d rows, %d were written'
+                       % (total, nrows))
+        return out
+    if path + '/_metadata' not in files:
+        return []
+    from checks.c09 import consistency
+    # orphan part files of interrupted appends are no concern of C07
+    return [p for p in consistency(fs, path)
+            if 'unreferenced' not in p and 'temporary' not in p]
 
 
 def first_meta_call(log, since):
@@ -209,6 +287,16 @@ def execute(case):
         D.cleanup(fs)
 
 
+def _named(case, df, parts, entry='write'):
+    """Frame and partition list as handed to write(): with the partition
+    columns' own names on a drill dataset (write_row_groups takes dirN)."""
+    names = case.get('drill_names')
+    if not names or entry != 'write':
+        return df, parts
+    m = dict(zip(parts, names))
+    return df.rename(columns=m), [m[p] for p in parts]
+
+
 def _execute(case, fs, path, res, cnt, faults, probes, bump, violation,
              scheme, parts, multi):
     model = D.Model()
@@ -226,11 +314,12 @@ def _execute(case, fs, path, res, cnt, faults, probes, bump, violation,
             if kind == 'write':
                 df = F.build_frame(op['frame'])
                 try:
+                    ndf, nparts_ = _named(case, df, parts)
                     if case.get('windex'):
-                        D.do_write(fs, path, df.set_index('k'), op, scheme,
-                                   parts, extra={'write_index': True})
+                        D.do_write(fs, path, ndf.set_index('k'), op, scheme,
+                                   nparts_, extra={'write_index': True})
                     else:
-                        D.do_write(fs, path, df, op, scheme, parts)
+                        D.do_write(fs, path, ndf, op, scheme, nparts_)
                 except Exception as e:
                     res['verdict'] = 'discard'
                     res['discard'] = 'initial write refused: %s: %s' % (
@@ -296,6 +385,7 @@ def _execute(case, fs, path, res, cnt, faults, probes, bump, violation,
             else:
                 df = F.build_frame(op['frame'])
                 wdf = df.set_index('k') if case.get('windex') else df
+                wdf, wparts = _named(case, wdf, parts, op.get('entry'))
                 # ---- arm the storage-seam monitors
                 before = fs.snapshot()[0]
                 fs.hits = []
@@ -319,7 +409,7 @@ def _execute(case, fs, path, res, cnt, faults, probes, bump, violation,
                     probe = D.clone_fs(fs.snapshot(), 'posix')
                     probe.begin_op(track_reads=True)
                     try:
-                        D.do_append(probe, path, wdf.copy(), op, scheme, parts)
+                        D.do_append(probe, path, wdf.copy(), op, scheme, wparts)
                         m = first_meta_call(probe.log, 0)
                     except Exception:
                         m = None
@@ -354,12 +444,12 @@ def _execute(case, fs, path, res, cnt, faults, probes, bump, violation,
                     if op.get('other') and not plan and not rplan:
                         out = D.in_other_process(
                             fs, lambda: D.do_append(fs, path, wdf, op,
-                                                    scheme, parts) and None)
+                                                    scheme, wparts) and None)
                         bump(probes, 'append_by_another_process')
                         if out[0] == 'exc':
                             raise D.ReaderFailed('%s: %s' % out[1:])
                     else:
-                        D.do_append(fs, path, wdf, op, scheme, parts,
+                        D.do_append(fs, path, wdf, op, scheme, wparts,
                                     pf=long_pf if op.get('entry') != 'write'
                                     else None)
                 except SimCrash as e:
@@ -444,6 +534,24 @@ def _execute(case, fs, path, res, cnt, faults, probes, bump, violation,
             if errs:
                 key, msg = classify(errs, snap, model, batch_cats, case)
                 violation(key, 'step %d (%s): %s' % (si, kind, msg), si)
+                break
+            # ---- a selective read is a read too: the rows of the newest
+            # batch must be found through a filter on one of their own values
+            # (row groups are pruned by the statistics written with them)
+            if kind in ('append', 'write') and err is None and len(df):
+                miss = filtered_read_misses(fs, path, df, op, parts)
+                if miss:
+                    violation('C07/filtered-read-misses-appended-rows',
+                              'step %d (%s): %s' % (si, kind, miss), si)
+                    break
+                bump(probes, 'filtered_reads_after_append')
+            # ---- what any other reader goes by: the footer's own counts,
+            # from the bytes, with the independent Thrift reader
+            probs = footer_counts(fs, path, multi, model.nrows())
+            if probs:
+                violation('C07/footer-counts-disagree-with-rows',
+                          'step %d (%s): %s' % (si, kind, '; '.join(probs[:3])),
+                          si)
                 break
             h.update(('%d:%s:%s;' % (si, kind, fs.state_digest())).encode())
             if snap['nrg'] > 1:
